@@ -14,6 +14,8 @@ in a zero-probability cell"):
   site-pairing        at every call site the count vector is the (un-flattened) clique marginal whose LAST axis is the column being
                       written, indexed by the group key of a groupby over exactly the preceding axes in the same order, and the
                       number of values requested is the number of rows being filled (total / df.shape[0] / group.shape[0])
+  private-counts      the generator rescales its count vector in place, so every vector handed to it is private to the call
+                      (ownership analysis of Factor.project / GraphicalModel.project / datavector: engines/fresh.py)
   conditioning        a column is generated conditionally on the already generated columns that share a model clique with it
                       (used & union of the cliques containing the column), and becomes `used` afterwards
 Not decided: that rounding error does not grow with the number of rows; the sampling law; pandas' groupby/apply (trusted); the
@@ -194,6 +196,7 @@ def run(ctx):
         ctx.ob('site-pairing', fi, stmt, okr, 'as many values as the group has rows must be requested; requested `%s`' % U(r_arg)[:80],
                construct='rows at ' + U(stmt)[:60])
     ctx.floor('generator call sites', n_sites, 3)
+    check_private_counts(ctx, fi, G, counts, sites, group_sites, be)
     check_conditioning(ctx, fi, be)
 
 
@@ -392,3 +395,34 @@ def check_conditioning(ctx, fi, be):
     ok = init is not None and first is not None and T(init) in ('{%s}' % T(first), 'set([%s])' % T(first), 'set((%s,))' % T(first))
     ctx.ob('conditioning', fi, loop, ok, 'the set of generated columns starts as exactly the first generated column; starts as `%s`'
            % (U(init) if init is not None else None), construct='initial set of generated columns')
+
+
+def check_private_counts(ctx, fi, G, counts, sites, group_sites, be):
+    """the generator rescales its count vector IN PLACE; every vector it is handed must therefore be private to this call - an array
+    that is (a view of) a cached clique marginal would be rewritten, and the next call would sample from the rescaled table"""
+    from ..engines.fresh import Freshness, FRESH
+    inplace = [n for n in ast.walk(G) if (isinstance(n, ast.AugAssign) and U(n.target) == counts) or
+               (isinstance(n, (ast.Assign, ast.AugAssign)) and isinstance(getattr(n, 'target', None) or n.targets[0], ast.Subscript)
+                and U((getattr(n, 'target', None) or n.targets[0]).value) == counts)]
+    if not inplace:
+        ctx.note('the column generator does not modify its count vector in place: no ownership obligation on its callers')
+        return
+    F = Freshness(ctx.repo)
+    todo = [(stmt, val.args[0]) for cont, col, val, pc, stmt, kind in sites if isinstance(val, ast.Call) and val.args]
+    for g, col, val, pc, stmt, call, sub in group_sites:
+        c_arg = val.args[0]
+        if isinstance(c_arg, ast.Subscript) and isinstance(c_arg.value, ast.Name):
+            outer = be.env.get(c_arg.value.id)
+            for lp, entry, body_env, pc_ in be.loops_done:
+                if c_arg.value.id in body_env:
+                    outer = body_env[c_arg.value.id]
+            if outer is not None:
+                c_arg = outer
+        todo.append((stmt, c_arg))
+    for stmt, arg in todo:
+        v = F.expr(arg, {}, 'GraphicalModel', [])
+        ctx.ob('private-counts', fi, stmt, v == FRESH,
+               'the generator rescales its count vector in place (`%s`), so the vector `%s` must be an array allocated for this call; it is %s'
+               % (U(inplace[0])[:50], U(arg)[:90], 'private' if v == FRESH else
+                  'possibly (a view of) storage owned by the %s: a cached marginal would be overwritten and later calls would draw from the rescaled table' % v),
+               construct='ownership of the counts at ' + U(stmt)[:50])
